@@ -84,7 +84,8 @@ C10(i) ==
                                                   /\ s.target_position = Pos(0, 4)>> } ELSE {})
    ELSE {})
   \cup (IF Cfg.generator = "random" THEN C10NonConstant(i, InstanceProj) ELSE {})
-  \cup (IF Cfg.generator = "random" /\ NR >= 3 /\ NC >= 3 /\ i = NEv /\ Cardinality(ResetLines) >= 4
+  \* (a 3x3 room has two possible mazes, a 3x4 room six: only larger rooms and enough keys make "all equal" telling)
+  \cup (IF Cfg.generator = "random" /\ NR >= 3 /\ NC >= 3 /\ NR * NC >= 12 /\ i = NEv /\ Cardinality(ResetLines) >= 8
         THEN { <<"C10.generator_walls_not_constant", Cardinality({ Ev(j).s.walls : j \in ResetLines }) >= 2>> }
         ELSE {})
 
